@@ -152,7 +152,14 @@ def cells_coq(col, kind, problems):
         if isinstance(seq, np.ndarray) and seq.dtype.kind != want:
             problems.append('%s._seq has dtype %s' % (type(col).__name__, seq.dtype))
         for x in seq:
-            out.append(pyobs.val(float(x)) if kind == 'KFloat' else pyobs.val(int(x)))
+            if kind == 'KFloat':
+                out.append(pyobs.val(float(x)))
+            else:
+                try:
+                    out.append(pyobs.val(int(x)))
+                except (ValueError, OverflowError):
+                    problems.append('non-integer value %r in an IntColumn' % (x,))
+                    out.append('(VInt 0)')
     return L.lst(out)
 
 
@@ -206,8 +213,8 @@ class Runner:
             if len(col) != n:
                 problems.append('column %s has %d cells in a %d-row table' % (name, len(col), n))
                 continue
-            colwise = list(col)
             try:
+                colwise = list(col)
                 rowwise = [row[name] for row in dm]
             except Exception as e:      # noqa: BLE001
                 problems.append('row-wise read of %s raised %r' % (name, e))
